@@ -33,6 +33,10 @@ func runC20(c *Ctx) {
 	runGuardedBy(c, GuardSpec{Pkg: "core", Type: "TxPool", Mutex: "mu", Guarded: guarded,
 		Exempt: map[string]string{}})
 	runGuardedBy(c, GuardSpec{Pkg: "core", Type: "txLookup", Mutex: "lock", Guarded: map[string]bool{"all": true}, Exempt: map[string]string{}})
+	// the nonce tracker: its table under its own lock; its fallback state database only under the WRITE lock,
+	// because StateDB getters load objects into the database's maps
+	runGuardedBy(c, GuardSpec{Pkg: "core", Type: "txNoncer", Mutex: "lock", Guarded: map[string]bool{"nonces": true}, Exempt: map[string]string{}})
+	runGuardedBy(c, GuardSpec{Pkg: "core", Type: "txNoncer", Mutex: "lock", Guarded: map[string]bool{"fallback": true}, Exempt: map[string]string{}, Exclusive: true})
 	// immutable-after-construction fields: no store outside the constructor
 	immut := map[string]bool{"config": true, "chain": true, "signer": true, "all": true, "journal": true, "router": true, "globalGasPrice": true}
 	txp := w.Struct("core", "TxPool")
@@ -469,6 +473,88 @@ func runC20(c *Ctx) {
 		}
 	}
 	c.Check("miner#source-of-transactions", 0, usesPending, ifelse(usesPending, "the miner calls Pending()", "the miner no longer takes its transactions from Pending()"))
+
+	// ------------------------------------------------------------ L8
+	c.Rule("C20.L8", "GATE", "txSortedMap.index is a binary heap: only its first element has a meaning (the lowest nonce). A positional use of any other element — reading index[k] for anything but an equality search, or keeping a prefix index[:n] — is dominated by sort.Sort(index) in the same function, otherwise 'the highest nonces' that Cap drops are arbitrary ones and the pending run gets a gap")
+	c.Min(2)
+	{
+		idxF := w.Field("core", "txSortedMap", "index")
+		fromIndex := func(v ssa.Value) bool {
+			return derivesFrom(v, func(x ssa.Value) bool {
+				f, _ := loadedField(x)
+				return f == idxF
+			})
+		}
+		nSites := 0
+		for _, fn := range w.FuncsIn("core") {
+			if strings.HasSuffix(w.fileOf(fn.Pos()), "_test.go") {
+				continue
+			}
+			var sorts []ssa.Instruction
+			for _, ci := range callInstrs(fn) {
+				if o := calleeObj(ci); o != nil && o.Pkg() != nil && o.Pkg().Path() == "sort" && (o.Name() == "Sort" || o.Name() == "Stable") {
+					if a := callArgs(ci); len(a) > 0 && fromIndex(a[0]) {
+						sorts = append(sorts, ci.(ssa.Instruction))
+					}
+				}
+			}
+			k := 0
+			for _, b := range fn.Blocks {
+				for _, in := range b.Instrs {
+					positional, what := false, ""
+					switch x := in.(type) {
+					case *ssa.IndexAddr:
+						if !fromIndex(x.X) {
+							continue
+						}
+						if n, isC := constInt(x.Index); isC && n == 0 {
+							continue // the heap minimum
+						}
+						// an element that is only compared for equality is a search, not a rank
+						for _, r := range *x.Referrers() {
+							ld, isLd := r.(*ssa.UnOp)
+							if !isLd {
+								positional = true // stored through
+								continue
+							}
+							for _, rr := range *ld.Referrers() {
+								if bo, isB := rr.(*ssa.BinOp); isB && (bo.Op == token.EQL || bo.Op == token.NEQ) {
+									continue
+								}
+								if _, isDbg := rr.(*ssa.DebugRef); isDbg {
+									continue
+								}
+								positional = true
+							}
+						}
+						what = "index[k]"
+					case *ssa.Slice:
+						if !fromIndex(x.X) || x.High == nil {
+							continue
+						}
+						if n, isC := constInt(x.High); isC && n == 0 {
+							continue // emptied
+						}
+						positional, what = true, "index[:n]"
+					default:
+						continue
+					}
+					if !positional {
+						continue
+					}
+					nSites++
+					c.sites++
+					c.sawFunc(fname(fn))
+					ok := mustPassBefore(in, sorts)
+					c.Check(fmt.Sprintf("%s#positional-%s-after-sort-%d", fname(fn), what, k), in.Pos(), ok, ifelse(ok, "dominated by sort.Sort(index)", "an element of the nonce heap other than the first is used by position without the heap having been sorted: heap order is not nonce order once anything was popped, so the transactions dropped or kept are not the highest / lowest nonces and the account's pending run is no longer gap-free"))
+					k++
+				}
+			}
+		}
+		if nSites == 0 {
+			c.Undecided("core.txSortedMap#positional-index-uses", token.NoPos, "no positional use of txSortedMap.index found (Cap is expected to have some)")
+		}
+	}
 }
 
 // c20Dropped: in promoteExecutables / demoteUnexecutables / truncate*, every
